@@ -476,6 +476,13 @@ func (g *G) selectingHeaders() []Hdr {
 	if len(hs) > 0 && g.chance(0.2) {
 		i := g.intn(len(hs))
 		hs[i].Vals = append(hs[i].Vals, g.pick("br", "b", "fr", "x", hs[i].Vals[0]))
+		// ... some of them blank (a blank line is a line: the first line is the blank one then)
+		switch g.intn(5) {
+		case 0:
+			hs[i].Vals = append([]string{""}, hs[i].Vals...)
+		case 1:
+			hs[i].Vals = []string{hs[i].Vals[0], "", hs[i].Vals[1]}
+		}
 	}
 	return hs
 }
